@@ -54,7 +54,7 @@ Eval vm_compute in (show prog_step "mjINT_IMPLICIT").
     lines, meta = [], []
     nval = 6 if ctx.tier == "quick" else 60
     for i in range(nval):
-        seed = rng.randrange(1, 10**6); feat = ALLF if i % 2 == 0 else rng.randrange(0, ALLF + 1); nb = 1 + rng.randrange(6); en = rng.choice([0, 2, 4, 6])
+        seed = rng.randrange(1, 10**6); feat = ALLF if i % 2 == 0 else rng.randrange(0, ALLF + 1); nb = 1 + rng.randrange(6); en = rng.choice([0, 2, 4, 6]) | (rng.choice([0, 1, 2, 3]) << 8) | (rng.choice([0, 1, 2]) << 10)
         for st, fr in table["frames"].items():
             R, W = fr["reads"], fr["must"]
             WA = sorted(set(fr["must"]) | set(fr["may"]))
@@ -63,7 +63,7 @@ Eval vm_compute in (show prog_step "mjINT_IMPLICIT").
     ne2e = 25 if ctx.tier == "quick" else 300
     extra = ["sensordata", "energy"]
     for i in range(ne2e):
-        seed = rng.randrange(1, 10**6); feat = ALLF if i % 3 == 0 else rng.randrange(0, ALLF + 1); nb = 1 + rng.randrange(6); en = rng.choice([0, 2, 4, 6])
+        seed = rng.randrange(1, 10**6); feat = ALLF if i % 3 == 0 else rng.randrange(0, ALLF + 1); nb = 1 + rng.randrange(6); en = rng.choice([0, 2, 4, 6]) | (rng.choice([0, 1, 2, 3]) << 8) | (rng.choice([0, 1, 2]) << 10)
         for recv in range(5):
             integ = rng.choice([0, 1, 2, 3])
             D = {0: Deuler, 1: Drk4, 2: Dimpl, 3: Dimpl}[integ]
@@ -93,7 +93,7 @@ Eval vm_compute in (show prog_step "mjINT_IMPLICIT").
     ctx.cov["evaluations"] = len(lines)
     ctx.cov["distinct_nontrivial"] = len(nontriv)
     ctx.cov["rule"] = ("frame validation: every stage of the table x random mjgen models, garbage outside the read set, must-fields compared and nothing outside must+may written; "
-                       "end-to-end: random models x receivers {copyData, copyState into fresh / reset / used, setState into used} x {forward, step, 3 steps, forward+inverse} x integrators, "
+                       "(solver and cone drawn per model: default/PGS/CG/Newton, pyramidal/elliptic) end-to-end: random models x receivers {copyData, copyState into fresh / reset / used, setState into used} x {forward, step, 3 steps, forward+inverse} x integrators, "
                        "comparing exactly the fields the Coq analysis marks as defined (+ sensordata, energy); non-trivial = distinct case that ran")
     ctx.cov["samples"] = [lines[0][:200], lines[-1][:200]]
     ctx.cov["translator_inputs"] = ["src/engine/engine_forward.c", "include/mujoco/mjtype.h", "harness/c01_table.json"]
